@@ -18,6 +18,7 @@
 #include <unistd.h>
 #include <fcntl.h>
 #include <sys/wait.h>
+#include <sys/resource.h>
 #include <momo/Array.h>
 #include <momo/SegmentedArray.h>
 #include <momo/HashSet.h>
@@ -892,6 +893,11 @@ int main()
 			close(fd[0]);
 			FILE* out = fdopen(fd[1], "w");
 			int devnull = open("/dev/null", O_WRONLY); if (devnull >= 0) dup2(devnull, 2);
+			// a broken tree under test must not take the machine down: 60 s and (outside sanitizer builds) 4 GiB per case
+			alarm(60);
+#if !defined(__SANITIZE_ADDRESS__)
+			{ struct rlimit rl; rl.rlim_cur = rl.rlim_max = rlim_t(4) << 30; setrlimit(RLIMIT_AS, &rl); }
+#endif
 			bool ok = dispatch(cs, out);
 			if (!ok) fprintf(out, "unknown-kind | orc=unknown-kind\n");
 			fflush(out); _exit(0);
